@@ -7,10 +7,16 @@ Open Scope list_scope.
 Open Scope nat_scope.
 
 Lemma cf_params : forall p fd, fc_params (compile_fun p fd) = fd_params fd. Proof. reflexivity. Qed.
-Lemma cf_nlocals : forall p fd, fc_nlocals (compile_fun p fd) = length (locals_of fd). Proof. reflexivity. Qed.
+Lemma cf_nlocals : forall p fd, fc_nlocals (compile_fun p fd) = length (layout fd). Proof. reflexivity. Qed.
 Lemma cf_cells : forall p fd, fc_cells (compile_fun p fd) = []. Proof. reflexivity. Qed.
 Lemma cf_free : forall p fd, fc_free (compile_fun p fd) = []. Proof. reflexivity. Qed.
-Lemma cf_code : forall p fd, fc_code (compile_fun p fd) = gen_body p (locals_of fd) (fd_body fd). Proof. reflexivity. Qed.
+Lemma cf_code : forall p fd, fc_code (compile_fun p fd) = gen_body p (layout fd) (fd_body fd). Proof. reflexivity. Qed.
+
+Lemma strs_eqb_eq : forall a b, strs_eqb a b = true -> a = b.
+Proof.
+  induction a; destruct b; simpl; intros H; try discriminate; auto.
+  apply andb_true_iff in H. destruct H as [H1 H2]. apply String.eqb_eq in H1. subst. f_equal. auto.
+Qed.
 Lemma cp_rec : forall p, cp_recursion (compile_prog p) = o_recursion (p_opts p). Proof. reflexivity. Qed.
 
 Lemma existsb_fids : forall fid K,
@@ -30,17 +36,20 @@ Section Call.
   Lemma Ca_step : forall n, B p n -> Ca p (S n).
   Proof.
     intros n IHB.
-    unfold Ca; intros stk f args ps s fid C fv K pc σ ρ I Hstk Hf.
+    unfold Ca; intros stk f args nm ps s fid C fv K pc σ ρ I Hstk Hf.
     assert (Hpop : popn (length args) (rev args ++ f :: σ) [] = Some (args, f :: σ)) by apply popn_rev.
+    assert (Hpk : popn (2 * length nm) (rev (flatkw nm) ++ rev args ++ f :: σ) [] = Some (flatkw nm, rev args ++ f :: σ)) by apply popn_flatkw.
+    simpl Nat.mul in Hpk.
+    assert (Hpairs : pairs_of (flatkw nm) = Some nm) by apply pairs_flatkw.
     simpl call.
     destruct f;
       try (cbn [sim]; norm_state; apply halts_now; rewrite (step_lit _ _ _ _ _ _ _ _ _ _ _ _ _ Hf); simpl;
-           rewrite Hpop; simpl; reflexivity).
+           rewrite Hpk; simpl; rewrite Hpairs; simpl; rewrite Hpop; simpl; reflexivity).
     - (* VFun *)
       pose proof (Hfuns fid0) as Hfid. unfold compile_prog in Hfid; cbn [cp_funs] in Hfid.
       destruct (find_def p fid0) as [[fd encl]|].
       2: { cbn [sim]. norm_state. apply halts_now. rewrite (step_lit _ _ _ _ _ _ _ _ _ _ _ _ _ Hf). simpl.
-           rewrite Hpop. simpl. rewrite Hfid. reflexivity. }
+           rewrite Hpk. simpl. rewrite Hpairs. simpl. rewrite Hpop. simpl. rewrite Hfid. reflexivity. }
       destruct Hfid as [Hfd [-> Hfc]].
       (* recursion check *)
       assert (Hrec : existsb (Nat.eqb fid0) stk =
@@ -48,29 +57,31 @@ Section Call.
                      || existsb (fun fr => match fr_fid fr with Some i => Nat.eqb i fid0 | None => false end) K).
       { unfold stk_ok in Hstk. subst stk. rewrite existsb_app, existsb_fids.
         destruct fid; simpl; auto. rewrite Nat.eqb_sym, orb_false_r. reflexivity. }
-      unfold ok_fundef in Hfd. apply andb_true_iff in Hfd. destruct Hfd as [Hfd Hbx].
+      unfold ok_fundef in Hfd. apply andb_true_iff in Hfd. destruct Hfd as [Hfd Hlay].
+      apply strs_eqb_eq in Hlay.
+      apply andb_true_iff in Hfd. destruct Hfd as [Hfd Hbx].
       apply andb_true_iff in Hfd. destruct Hfd as [Hps Hbody].
       destruct (boxed_names (fd_body fd)) eqn:Ebx; [clear Hbx | discriminate].
       destruct (negb (o_recursion (p_opts p)) && existsb (Nat.eqb fid0) stk) eqn:Erec.
       { cbn [sim]. norm_state. apply halts_now. rewrite (step_lit _ _ _ _ _ _ _ _ _ _ _ _ _ Hf). simpl.
-        rewrite Hpop. simpl. rewrite Hfc; simpl; rewrite ?cp_rec, <- ?Hrec, ?Erec. reflexivity. }
-      destruct (bind_args (fd_params fd) defaults args [] (rw s)) as [[params w1]| |t] eqn:Eb; cbn [lift_call sim].
+        rewrite Hpk. simpl. rewrite Hpairs. simpl. rewrite Hpop. simpl. rewrite Hfc; simpl; rewrite ?cp_rec, <- ?Hrec, ?Erec. reflexivity. }
+      destruct (bind_args (fd_params fd) defaults args nm (rw s)) as [[params w1]| |t] eqn:Eb; cbn [lift_call sim].
       2: { norm_state. apply halts_now. rewrite (step_lit _ _ _ _ _ _ _ _ _ _ _ _ _ Hf). simpl.
-           rewrite Hpop. simpl. rewrite Hfc; simpl; rewrite ?cp_rec, <- ?Hrec, ?Erec; simpl; rewrite ?app_nil_r, ?cf_params, ?Eb. reflexivity. }
+           rewrite Hpk. simpl. rewrite Hpairs. simpl. rewrite Hpop. simpl. rewrite Hfc; simpl; rewrite ?cp_rec, <- ?Hrec, ?Erec; simpl; rewrite ?app_nil_r, ?cf_params, ?Eb. reflexivity. }
       2: { norm_state. apply halts_now. rewrite (step_lit _ _ _ _ _ _ _ _ _ _ _ _ _ Hf). simpl.
-           rewrite Hpop. simpl. rewrite Hfc; simpl; rewrite ?cp_rec, <- ?Hrec, ?Erec; simpl; rewrite ?app_nil_r, ?cf_params, ?Eb. reflexivity. }
+           rewrite Hpk. simpl. rewrite Hpairs. simpl. rewrite Hpop. simpl. rewrite Hfc; simpl; rewrite ?cp_rec, <- ?Hrec, ?Erec; simpl; rewrite ?app_nil_r, ?cf_params, ?Eb. reflexivity. }
       destruct (new_vars_nil_boxed (locals_of fd) (map Some params) w1) as [ρl [Hnv [Hwl [Hml Hvl]]]].
       rewrite Hnv. rewrite filter_no_names. simpl map. rewrite app_nil_r.
       (* the machine enters the callee *)
       set (caller := {| fr_fid := fid; fr_code := C; fr_pc := S pc; fr_stack := σ; fr_locals := env_vals ρ;
                         fr_iters := I; fr_free := fv |}).
       set (C' := gen_body p (locals_of fd) (fd_body fd)).
-      assert (Henter : star cp fn (S1 fid C fv K pc (rev args ++ VFun fid0 defaults free :: σ) ρ I s)
+      assert (Henter : star cp fn (S1 fid C fv K pc (rev (flatkw nm) ++ rev args ++ VFun fid0 defaults free :: σ) ρ I s)
                          (S1 (Some fid0) C' [] (caller :: K) 0 [] ρl [] (with_w s w1))).
       { norm_state. eapply star_step; [ | apply star_refl ].
         rewrite (step_lit _ _ _ _ _ _ _ _ _ _ _ _ _ Hf). simpl.
-        rewrite Hpop. simpl. rewrite Hfc; simpl; rewrite ?cp_rec, <- ?Hrec, ?Erec; simpl; rewrite ?app_nil_r, ?cf_params, ?Eb.
-        simpl. rewrite ?cf_nlocals, ?cf_cells, ?cf_free, ?cf_code, ?filter_no_names. simpl. rewrite ?Hvl. reflexivity. }
+        rewrite Hpk. simpl. rewrite Hpairs. simpl. rewrite Hpop. simpl. rewrite Hfc; simpl; rewrite ?cp_rec, <- ?Hrec, ?Erec; simpl; rewrite ?app_nil_r, ?cf_params, ?Eb.
+        simpl. rewrite ?cf_nlocals, ?cf_cells, ?cf_free, ?cf_code, ?filter_no_names. simpl. rewrite ?Hlay, ?Hvl. reflexivity. }
       assert (Hcode : pcode_at C' 0 (gen_block p (map fst ρl) (fd_body fd) ++ [NONE; RETURN]) None None).
       { rewrite Hml. apply pcode_finalize. }
       apply pcode_app in Hcode. destruct Hcode as [Hcb Hct]. pcode_split.
@@ -92,20 +103,20 @@ Section Call.
       + hstar Henter. exact IH.
       + hstar Henter. exact IH.
     - (* VBuiltin *)
-      destruct (call_builtin fn name None args [] (rw s)) as [[r w]| |t] eqn:Ec; cbn [lift sim fst snd].
+      destruct (call_builtin fn name None args nm (rw s)) as [[r w]| |t] eqn:Ec; cbn [lift sim fst snd].
       + norm_state. eapply star_step; [ | apply star_refl ].
-        rewrite (step_lit _ _ _ _ _ _ _ _ _ _ _ _ _ Hf). simpl. rewrite Hpop. simpl. rewrite app_nil_r, Ec. reflexivity.
+        rewrite (step_lit _ _ _ _ _ _ _ _ _ _ _ _ _ Hf). simpl. rewrite Hpk. simpl. rewrite Hpairs. simpl. rewrite Hpop. simpl. rewrite !app_nil_r, Ec. reflexivity.
       + norm_state. apply halts_now.
-        rewrite (step_lit _ _ _ _ _ _ _ _ _ _ _ _ _ Hf). simpl. rewrite Hpop. simpl. rewrite app_nil_r, Ec. reflexivity.
+        rewrite (step_lit _ _ _ _ _ _ _ _ _ _ _ _ _ Hf). simpl. rewrite Hpk. simpl. rewrite Hpairs. simpl. rewrite Hpop. simpl. rewrite !app_nil_r, Ec. reflexivity.
       + norm_state. apply halts_now.
-        rewrite (step_lit _ _ _ _ _ _ _ _ _ _ _ _ _ Hf). simpl. rewrite Hpop. simpl. rewrite app_nil_r, Ec. reflexivity.
+        rewrite (step_lit _ _ _ _ _ _ _ _ _ _ _ _ _ Hf). simpl. rewrite Hpk. simpl. rewrite Hpairs. simpl. rewrite Hpop. simpl. rewrite !app_nil_r, Ec. reflexivity.
     - (* VMethod *)
-      destruct (call_builtin fn name (Some f) args [] (rw s)) as [[r w]| |t] eqn:Ec; cbn [lift sim fst snd].
+      destruct (call_builtin fn name (Some f) args nm (rw s)) as [[r w]| |t] eqn:Ec; cbn [lift sim fst snd].
       + norm_state. eapply star_step; [ | apply star_refl ].
-        rewrite (step_lit _ _ _ _ _ _ _ _ _ _ _ _ _ Hf). simpl. rewrite Hpop. simpl. rewrite app_nil_r, Ec. reflexivity.
+        rewrite (step_lit _ _ _ _ _ _ _ _ _ _ _ _ _ Hf). simpl. rewrite Hpk. simpl. rewrite Hpairs. simpl. rewrite Hpop. simpl. rewrite !app_nil_r, Ec. reflexivity.
       + norm_state. apply halts_now.
-        rewrite (step_lit _ _ _ _ _ _ _ _ _ _ _ _ _ Hf). simpl. rewrite Hpop. simpl. rewrite app_nil_r, Ec. reflexivity.
+        rewrite (step_lit _ _ _ _ _ _ _ _ _ _ _ _ _ Hf). simpl. rewrite Hpk. simpl. rewrite Hpairs. simpl. rewrite Hpop. simpl. rewrite !app_nil_r, Ec. reflexivity.
       + norm_state. apply halts_now.
-        rewrite (step_lit _ _ _ _ _ _ _ _ _ _ _ _ _ Hf). simpl. rewrite Hpop. simpl. rewrite app_nil_r, Ec. reflexivity.
+        rewrite (step_lit _ _ _ _ _ _ _ _ _ _ _ _ _ Hf). simpl. rewrite Hpk. simpl. rewrite Hpairs. simpl. rewrite Hpop. simpl. rewrite !app_nil_r, Ec. reflexivity.
   Qed.
 End Call.
